@@ -14,7 +14,9 @@
 //!          hop = u32 | S<a+b..> | Q<a+b..> | C<a+b..> | D<a+b..>   (AS_SET, AS_SEQUENCE segment kept
 //!          as one hop, AS_CONFED_SEQUENCE, AS_CONFED_SET; every kind may be empty: an empty AS_SEQUENCE
 //!          segment hop is what `AsPath::new(vec![2, 0], true).to_hop_path()` yields)
-//!   origin -|!|u8                   ORIGIN absent | key 1 holds an Invalid attribute | OriginType::from(n)
+//!   origin -|!|u8|U<u8>             ORIGIN absent | key 1 holds an Invalid attribute | OriginType::from(n) |
+//!                                   `OriginType::Unimplemented(n)` written out directly (for n <= 2 a value no parse
+//!                                   yields: the public enum allows it, `u8::from` of it is n, it goes out as ORIGIN n)
 //!   med    -|!|u32    lasn u32    oid -|!|u32 (ORIGINATOR_ID)    bgpid u32
 //!   cl     -|!|n (0..=64)           CLUSTER_LIST with n entries
 //!   peer   4:u32 | 6:u128           peer address
@@ -74,6 +76,9 @@ pub struct RouteSpec {
     pub lp: Option<u32>,
     pub path: Slot<Vec<HopSpec>>,
     pub origin: Slot<u8>,
+    /// the ORIGIN was given as `U<n>`: the attribute is `Origin(OriginType::Unimplemented(n))` built directly, not
+    /// `OriginType::from(n)`.  For n <= 2 another Rust value (and another `PaMap`) with the same origin NUMBER.
+    pub origin_raw: bool,
     pub med: Option<u32>,
     pub lasn: u32,
     pub oid: Option<u32>,
@@ -142,8 +147,10 @@ pub fn parse_route(s: &str) -> Option<RouteSpec> {
     let origin = match f[4] {
         "-" => Slot::Absent,
         "!" => Slot::Bogus,
-        o => Slot::Val(nat(o, 255)? as u8),
+        o => Slot::Val(nat(o.strip_prefix('U').unwrap_or(o), 255)? as u8),
     };
+    // `Unimplemented(n)` for n > 2 IS `OriginType::from(n)`: the same value, the same content
+    let origin_raw = f[4].starts_with('U') && matches!(origin, Slot::Val(o) if o <= 2);
     let med = slot_u32(f[5], u32::MAX as u128, 2, &mut bogus)?;
     let lasn = nat(f[6], u32::MAX as u128)? as u32;
     let oid = slot_u32(f[7], u32::MAX as u128, 4, &mut bogus)?;
@@ -155,7 +162,7 @@ pub fn parse_route(s: &str) -> Option<RouteSpec> {
         _ => return None,
     };
     let extra = nat(f[11], u32::MAX as u128)? as u32;
-    Some(RouteSpec { ibgp, dop, lp, path, origin, med, lasn, oid, bgpid, cl, peer_v6, peer, extra, bogus, rest: vec![] })
+    Some(RouteSpec { ibgp, dop, lp, path, origin, origin_raw, med, lasn, oid, bgpid, cl, peer_v6, peer, extra, bogus, rest: vec![] })
 }
 
 fn show_opt(o: Option<u32>) -> String { o.map(|v| v.to_string()).unwrap_or("-".into()) }
@@ -170,7 +177,7 @@ pub fn show_route(r: &RouteSpec) -> String {
             HopSpec::Seg(c, asns) => format!("{}{}", c, asns.iter().map(|a| a.to_string()).collect::<Vec<_>>().join("+")),
         }).collect::<Vec<_>>().join("."),
     };
-    let origin = match &r.origin { Slot::Absent => "-".into(), Slot::Bogus => "!".into(), Slot::Val(o) => o.to_string() };
+    let origin = match &r.origin { Slot::Absent => "-".into(), Slot::Bogus => "!".into(), Slot::Val(o) => format!("{}{}", if r.origin_raw { "U" } else { "" }, o) };
     let slot = |o: Option<u32>, bit: u8| if r.bogus & bit != 0 { "!".to_string() } else { show_opt(o) };
     format!("{},{},{},{},{},{},{},{},{},{},{}:{},{}",
         if r.ibgp { "i" } else { "e" }, show_opt(r.dop), slot(r.lp, 1), path, origin, slot(r.med, 2), r.lasn,
@@ -229,7 +236,7 @@ pub fn build(r: &RouteSpec) -> (PaMap, TiebreakerInfo) {
         Slot::Absent => {}
         // what PaMap::from_update_pdu stores for a received ORIGIN of the wrong length
         Slot::Bogus => { m.add_attribute(PathAttribute::Invalid(0x40.into(), 1, vec![0, 0])).unwrap(); }
-        Slot::Val(o) => { m.set(Origin(OriginType::from(*o))); }
+        Slot::Val(o) => { m.set(Origin(if r.origin_raw { OriginType::Unimplemented(*o) } else { OriginType::from(*o) })); }
     }
     match &r.path {
         Slot::Absent => {}
@@ -365,11 +372,19 @@ pub fn ref_eligible(r: &RouteSpec) -> bool {
         })
 }
 
-/// Routes of which the property does not say that they are accepted: an ORIGIN value the RFC does not
-/// define (> 2; RFC 7606 would have it treated as withdrawn) or an optional attribute whose type code holds
-/// an Invalid attribute.  Refusing such a route is accepted; when it is accepted it is compared as the
-/// reference says (ORIGIN by number, the Invalid attribute as absent).
-pub fn may_be_refused(r: &RouteSpec) -> bool { matches!(r.origin, Slot::Val(o) if o > 2) || r.bogus != 0 }
+/// Routes of which the property does not say that they are accepted - the places where routecore's reading of a
+/// route is its own policy and RFC 7606 would have the route treated as withdrawn: an ORIGIN value the RFC does
+/// not define (> 2; 7606 7.1), an AS_PATH with a zero-length segment (7.2), an optional attribute whose type code
+/// holds an Invalid attribute (a MED / LOCAL_PREF / ORIGINATOR_ID / CLUSTER_LIST of a wrong length: 7.4 / 7.5 / 7.9 /
+/// 7.10).  The oracle ABSTAINS on acceptance: refusing such a route is accepted.  When it is accepted it is compared
+/// by the property's text (ORIGIN by number; a set counts one, an empty AS_SEQUENCE nothing; the Invalid attribute
+/// as absent).  The fourth such place - ORIGINATOR_ID / CLUSTER_LIST on a route learned over eBGP, which 7606 7.9 /
+/// 7.10 would discard - is judged by the property's text too ("lowest BGP identifier with ORIGINATOR_ID
+/// substituted, shorter cluster list": no exception for eBGP), which is what routecore does.
+pub fn may_be_refused(r: &RouteSpec) -> bool {
+    matches!(r.origin, Slot::Val(o) if o > 2) || r.bogus != 0
+        || matches!(&r.path, Slot::Val(h) if h.iter().any(|x| matches!(x, HopSpec::Seg(_, a) if a.is_empty())))
+}
 
 /// "refused at construction": `ok` only for eligible routes, `refused` for every route lacking ORIGIN /
 /// AS_PATH / eBGP neighbour (and tolerated where `may_be_refused`)
@@ -486,7 +501,8 @@ fn parse_ord(s: &str) -> Option<Ordering> {
 // The real route: `UpdateMessage::from_octets` -> `PaMap::from_update_pdu` -> `OrdRoute::try_new`.
 // The independent reading (`read_pdu`): this file's own walk over the attribute section (RFC 4271 4.3 framing,
 // RFC 7606 3.g first occurrence, the length rules of the RFCs) into the same `RouteSpec` the reference
-// comparison `rfc_prefer` works on.  It shares no code with routecore.
+// comparison `rfc_prefer` works on.  It shares no code with routecore (its policy choices are routecore's, see
+// `read_pdu` / `may_be_refused`).
 
 #[derive(Clone, Debug)]
 pub struct PduCand { pub four: bool, pub ap: bool, pub pdu: Vec<u8>, pub tb: RouteSpec }
@@ -619,17 +635,22 @@ fn ser_hops(h: &[HopSpec]) -> Vec<u8> {
     o
 }
 
-/// The route a received UPDATE denotes, by the RFCs: of several attributes with one type code the first counts
-/// (RFC 7606 3.g); ORIGIN is one octet, LOCAL_PREF / MED / ORIGINATOR_ID four, CLUSTER_LIST a whole number of
-/// four-octet ids; an attribute of another shape is there but unusable (`Bogus` / the `bogus` bit); the AS_PATH
-/// is read in the AS number width of the session; an AS4_PATH is NOT merged into it (routecore leaves RFC 6793
-/// 4.2.3 reconstruction to its user: `get::<HopPath>()` is the AS_PATH attribute).  None: the attribute section
-/// cannot be walked (the UPDATE is malformed as a whole).
+/// The route a received UPDATE denotes, read by this file's own code (no routecore call): of several attributes
+/// with one type code the first counts (RFC 7606 3.g); ORIGIN is one octet, LOCAL_PREF / MED / ORIGINATOR_ID four,
+/// CLUSTER_LIST a whole number of four-octet ids; an attribute of another shape is there but unusable (`Bogus` / the
+/// `bogus` bit); the AS_PATH is read in the AS number width of the session; an AS4_PATH is NOT merged into it
+/// (routecore leaves RFC 6793 4.2.3 reconstruction to its user: `get::<HopPath>()` is the AS_PATH attribute).
+/// A second opinion on the MECHANICS (framing, first occurrence, widths, hop counting, neighbour).  On POLICY it
+/// adopts routecore's choices where RFC 7606 says otherwise (undefined ORIGIN value = a value, zero-length segment
+/// accepted, malformed optional attribute = absent, ORIGINATOR_ID / CLUSTER_LIST over eBGP used): there the oracle
+/// abstains on acceptance (`may_be_refused`) and otherwise judges by the property's text, never against RFC 7606.
+/// None: the attribute section cannot be walked (the UPDATE is malformed as a whole).
 pub fn read_pdu(c: &PduCand) -> Option<RouteSpec> {
     let attrs = own_walk(&c.pdu)?;
     let mut r = c.tb.clone();
     let first = |code: u8| attrs.iter().find(|a| a.1 == code).map(|a| &a.2);
     let be = |v: &Vec<u8>| u32::from_be_bytes([v[0], v[1], v[2], v[3]]);
+    r.origin_raw = false;
     r.origin = match first(1) { None => Slot::Absent, Some(v) if v.len() == 1 => Slot::Val(v[0]), Some(_) => Slot::Bogus };
     r.path = match first(2) { None => Slot::Absent, Some(v) => match own_path(v, if c.four { 4 } else { 2 }) { Some(h) => Slot::Val(h), None => Slot::Bogus } };
     r.bogus = 0;
@@ -799,7 +820,7 @@ pub fn plan_pdu(plan: &[PAttr], ap: bool) -> Vec<u8> {
 /// the tie-breaker record of a random route (small pools: ties are frequent)
 pub fn random_tb(rng: &mut Rng) -> RouteSpec {
     let mut r = random_route(rng);
-    r.lp = None; r.path = Slot::Absent; r.origin = Slot::Absent; r.med = None; r.oid = None; r.cl = None; r.extra = 0; r.bogus = 0;
+    r.lp = None; r.path = Slot::Absent; r.origin = Slot::Absent; r.origin_raw = false; r.med = None; r.oid = None; r.cl = None; r.extra = 0; r.bogus = 0;
     r
 }
 
@@ -855,7 +876,7 @@ pub fn gen_pdu_cands(rng: &mut Rng, n: usize) -> Vec<String> {
 // ---------------------------------------------------------------- generators
 
 pub fn base_route() -> RouteSpec {
-    RouteSpec { ibgp: false, dop: None, lp: None, path: Slot::Val(vec![HopSpec::Asn(10), HopSpec::Asn(20)]), origin: Slot::Val(0),
+    RouteSpec { ibgp: false, dop: None, lp: None, path: Slot::Val(vec![HopSpec::Asn(10), HopSpec::Asn(20)]), origin: Slot::Val(0), origin_raw: false,
         med: None, lasn: 65000, oid: None, bgpid: 5, cl: None, peer_v6: false, peer: 0x0a000001, extra: 0, bogus: 0, rest: vec![] }
 }
 
@@ -871,7 +892,7 @@ fn lattice(srcs: &[bool], dops: &[Option<u32>], lps: &[Option<u32>], paths: &[&s
     let mut v = Vec::new();
     for &ibgp in srcs { for &dop in dops { for &lp in lps { for p in paths { for &o in origins { for &med in meds {
     for &(oid, bgpid) in ids { for &cl in cls { for &(peer_v6, peer) in peers { for &lasn in lasns {
-        v.push(RouteSpec { ibgp, dop, lp, path: path_of(p), origin: Slot::Val(o), med, lasn, oid, bgpid, cl, peer_v6, peer, extra: 0, bogus: 0, rest: vec![] });
+        v.push(RouteSpec { ibgp, dop, lp, path: path_of(p), origin: Slot::Val(o), origin_raw: false, med, lasn, oid, bgpid, cl, peer_v6, peer, extra: 0, bogus: 0, rest: vec![] });
     } } } } } } } } } }
     v
 }
@@ -908,6 +929,7 @@ pub fn random_route(rng: &mut Rng) -> RouteSpec {
         lp: opt(rng, 2),
         path: if rng.chance(1, 40) { if rng.bool() { Slot::Absent } else { Slot::Bogus } } else { Slot::Val(hops) },
         origin: if rng.chance(1, 40) { if rng.bool() { Slot::Absent } else { Slot::Bogus } } else { Slot::Val(*rng.pick(&[0u8, 0, 1, 2, 2, 3, 255])) },
+        origin_raw: false,
         med: opt(rng, 2),
         lasn: *rng.pick(&[10u32, 20, 65000]),
         oid: if rng.chance(1, 3) { Some(*rng.pick(&[1u32, 2, 3, 256, 0x01000000, 0x00ff0000])) } else { None },
@@ -920,6 +942,8 @@ pub fn random_route(rng: &mut Rng) -> RouteSpec {
         rest: vec![],
     };
     let mut r = r;
+    // 1 in 8: the ORIGIN as `OriginType::Unimplemented(n)` written out (n <= 2: a value only the API builds)
+    if matches!(r.origin, Slot::Val(_)) && rng.chance(1, 8) { r.origin_raw = true; }
     // now and then an optional attribute's type code holds an Invalid attribute
     if rng.chance(1, 12) {
         let bit = 1u8 << rng.below(4);
@@ -944,7 +968,7 @@ impl Prop for C10 {
         let n = [None]; let id1 = [(None, 5u32)]; let p1 = [(false, 0x0a000001u128)];
         // ---- construction: every combination of presence of ORIGIN / AS_PATH / neighbour, both sources
         for src in ["e", "i"] { for path in ["-", "!", "e", "10.20", "S10+20.30", "C10.20", "D10", "Q10+20.30", "10", "q10+20.30", "q10", "s10.20", "c10", "d10"] {
-            for origin in ["-", "!", "0", "2", "7"] { for s in STRATS {
+            for origin in ["-", "!", "0", "2", "7", "U0", "U2", "U7"] { for s in STRATS {
                 v.push(format!("try {} {},-,-,{},{},-,65000,-,5,-,4:1,0", s, src, path, origin));
             } }
         } }
@@ -959,6 +983,15 @@ impl Prop for C10 {
                 v.push(format!("cmp {} {},-,{},10.20,0,{},65000,{},5,{},4:1,0 {},-,-,10.20,0,-,65000,-,5,-,4:1,0", s, src, lp, med, oid, cl, src));
             }
         } }
+        // ---- ORIGIN values only the API builds (`OriginType::Unimplemented(0..=2)`) against every parse image: step b
+        // goes by the origin NUMBER (F37: the derived order of the enum ranked Unimplemented(0) above Incomplete)
+        let origins = ["0", "1", "2", "3", "255", "U0", "U1", "U2", "U3", "U255"];
+        for s in STRATS { for src in ["e", "i"] { for a in origins { for b in origins {
+            v.push(format!("cmp {} {},-,-,10.20,{},-,65000,-,5,-,4:1,0 {},-,-,10.20,{},-,65000,-,5,-,4:1,0", s, src, a, src, b));
+        } } } }
+        for a in ["U0", "U1", "U2"] { for b in ["0", "2", "U1"] { for c in ["1", "U0", "3"] {
+            v.push(format!("tri skipmed e,-,-,10.20,{},-,65000,-,5,-,4:1,0 e,-,-,10.20,{},-,65000,-,5,-,4:1,0 e,-,-,10.20,{},-,65000,-,5,-,4:1,0", a, b, c));
+        } } }
         // ---- hop_count_path_selection / neighbor_path_selection
         for p in ["e", "10", "10.20.30", "S10+20", "S", "S10.20", "10.S20+30.40", "C10+20.30", "D10+20.30", "C10.D20.S30.40",
                   "Q10+20", "Q10+20.30", "30.Q10+20", "10.10.10.10", "C", "D",
@@ -1205,7 +1238,7 @@ pub fn mutate(a: &RouteSpec, rng: &mut Rng) -> RouteSpec {
         2 => { b.lp = Some(b.lp.unwrap_or(0).wrapping_add(1)); b.bogus &= !1; }
         3 => if let Slot::Val(h) = &mut b.path { h.push(HopSpec::Asn(30)); },
         4 => if let Slot::Val(h) = &mut b.path { if let Some(x) = h.last_mut() { *x = HopSpec::Asn(77); } },
-        5 => b.origin = Slot::Val(match b.origin { Slot::Val(o) => o.wrapping_add(1), _ => 0 }),
+        5 => if rng.chance(1, 3) && matches!(b.origin, Slot::Val(_)) { b.origin_raw = !b.origin_raw } else { b.origin = Slot::Val(match b.origin { Slot::Val(o) => o.wrapping_add(1), _ => 0 }) },
         6 => { b.med = Some(b.med.unwrap_or(0).wrapping_add(1)); b.bogus &= !2; }
         7 => { b.oid = if b.oid.is_some() { None } else { Some(2) }; b.bogus &= !4; }
         8 => b.bgpid = b.bgpid.wrapping_add(1),
